@@ -155,6 +155,9 @@ func Routes(c explore.Chooser) *prog.Program {
 	sameLine := s.Pick("same-line-literals", "no", "yes")
 	earlyReply := s.Pick("early-reply", "no", "yes")
 	sameSpelling := s.Pick("same-spelling-twice", "no", "yes")
+	// the routes' package bearing the name of the imported handler package (packages are told apart
+	// by import path, never by name)
+	rootName := s.Pick("root.pkgname", "main", "inner")
 	shadow := s.Pick("shadowed-const", "no", "local-shadows-package-const", "two-locals-same-name", "two-locals-own-handlers")
 
 	// de-duplicate statements using the same variables (same statement chosen twice)
@@ -324,9 +327,9 @@ func Routes(c explore.Chooser) *prog.Program {
 	}
 
 	innerSrc := "package inner\n\nimport (\n\t\"fmt\"\n\n\t\"" + echoPath + "\"\n)\n\nconst Url = \"/inner/\"\n\ntype Controller struct{}\n\nfunc (Controller) HandleExt(c echo.Context) error {\n\tvar in []int64\n\tt, v := c.QueryParam(\"query1\"), c.QueryParam(\"query2\")\n\terr := c.Bind(&in)\n\t_ = fmt.Errorf(\"%s%s%s\", t, v, err)\n\tvar out map[string][]int\n\treturn c.JSON(200, out)\n}\n\nfunc TopLevel(c echo.Context) error {\n\treturn nil\n}\n\nfunc QueryParamInt[T ~int64](echo.Context, string) (T, error) { return 0, nil }\n"
-	hdr := "package main\n\nimport (\n\t\"" + echoPath + "\"\n\t\"" + innerPath + "\"\n)\n\n"
+	hdr := "package " + rootName + "\n\nimport (\n\t\"" + echoPath + "\"\n\t\"" + innerPath + "\"\n)\n\n"
 	if strings.Contains(a.String(), "fmt.") || strings.Contains(handlerExpr, "fmt.") {
-		hdr = "package main\n\nimport (\n\t\"fmt\"\n\n\t\"" + echoPath + "\"\n\t\"" + innerPath + "\"\n)\n\n"
+		hdr = "package " + rootName + "\n\nimport (\n\t\"fmt\"\n\n\t\"" + echoPath + "\"\n\t\"" + innerPath + "\"\n)\n\n"
 	}
 	rawTail := ""
 	if sameLine == "yes" {
@@ -342,13 +345,13 @@ func Routes(c explore.Chooser) *prog.Program {
 		bimps = append(bimps, "\t\""+innerPath+"\"")
 	}
 	bimports := "import (\n" + strings.Join(bimps, "\n") + "\n)\n\n"
-	bsrc := "package main\n\n" + bimports + "var _ echo.Context\n\n" + extraFile.String() + "\nfunc main() {}\n"
+	bsrc := "package " + rootName + "\n\n" + bimports + "var _ echo.Context\n\n" + extraFile.String() + "\nfunc main() {}\n"
 
 	p := &prog.Program{Family: "F-routes", Analysed: []string{"routes.go"}, Features: s.Feats}
 	p.Pkgs = []*prog.Pkg{
 		{Path: echoPath, Name: "echo", Files: []prog.File{{Name: "echo.go", Src: echoStub}}},
 		{Path: innerPath, Name: "inner", Files: []prog.File{{Name: "inner.go", Src: innerSrc}}},
-		{Path: base, Name: "main", Files: []prog.File{{Name: "routes.go", Src: hdr + a.String(), RawTail: rawTail}, {Name: "other.go", Src: bsrc}}},
+		{Path: base, Name: rootName, Files: []prog.File{{Name: "routes.go", Src: hdr + a.String(), RawTail: rawTail}, {Name: "other.go", Src: bsrc}}},
 	}
 	// prefix filter on the expected table
 	var want []Route
